@@ -28,7 +28,7 @@ Import ListNotations.
 From SV Require Import Common.GoInt C03.Model C03.Spec C03.MapRanges.
 Open Scope nat_scope.
 Definition envA : env := {| e_hash := fun b => List.length b; e_perm := fun l => l; e_addr := fun n => n |}.
-Definition envB : env := {| e_hash := fun b => N.to_nat (fold_left N.add b 0%N); e_perm := @rev bytes; e_addr := fun n => 3 * n |}.
+Definition envB : env := {| e_hash := fun b => N.to_nat (N.modulo (fold_left (fun a c => N.add (N.mul a 31) c) b 7%N) 61); e_perm := @rev bytes; e_addr := fun n => 3 * n |}.
 Definition envC : env := {| e_hash := fun _ => 0; e_perm := fun l => match l with x :: r => List.app r [x] | [] => [] end; e_addr := fun n => 0 |}.
 Definition obs_of (e : env) (ops : list op) := fst (transcript (run e ops)).
 Definition model_ok (c : list op * list event) : bool :=
@@ -38,8 +38,18 @@ Definition spec_ok (c : list op * list event) : bool := list_eqb event_eqb (fst 
 """
 
 
+KEYS = {}
+
+
 def cbytes(s):
-    return "[" + "; ".join("%d" % b for b in s.encode("utf8")) + "]%N"
+    """Byte strings are named once (Definition kN) and referred to by name: Coq parses big numeral lists slowly."""
+    if s not in KEYS:
+        KEYS[s] = "k%d" % len(KEYS)
+    return KEYS[s]
+
+
+def key_defs():
+    return "".join("Definition %s : bytes := [%s]%%N.\n" % (n, "; ".join("%d" % b for b in s.encode("utf8"))) for s, n in KEYS.items())
 
 
 def render_op(o):
@@ -132,23 +142,39 @@ Print stale.
             len(rows), ", ".join("%s:%s=%s" % (r["file"].split("/")[-1], r["func"], r["class"]) for r in rows), missing, stale))
 
     # ---- 2. operation histories on the real Dict / listings / hash() against model and specification
-    hist = ctx.jsonl([hx, "ops", "-seed", str(ctx.seed), "-n", "60" if quick else "500"])
+    hist = ctx.jsonl([hx, "ops", "-seed", str(ctx.seed), "-n", "50" if quick else "500"])
     cases = ["([%s], [%s])" % ("; ".join(render_op(o) for o in h["ops"]), "; ".join(render_ev(e) for e in h["obs"])) for h in hist]
     nops = sum(len(h["ops"]) for h in hist)
     ctx.log("evaluating %d histories (%d operations) in Coq" % (len(cases), nops))
-    bad_model, bad_spec = coq_mismatches(ctx, "c03_hist", HEADER, cases, ["model_ok", "spec_ok"], shard=150)
+    bad_model, bad_spec = coq_mismatches(ctx, "c03_hist", HEADER + key_defs(), cases, ["model_ok", "spec_ok"], shard=250)
     ctx.log("histories evaluated")
-    for i in bad_spec:
-        h = hist[i]
-        kinds = sorted(set(o["op"] for o in h["ops"]))
-        ctx.finding("history:%s" % "+".join(k for k in kinds if k in ("listing", "struct", "hashstr", "hashbytes", "popitem", "del")),
-                    "the real Dict / listing / hash() observations differ from the specification machine (insertion order, sorted listings, seedless hash) on history %d: %s" % (h["i"], json.dumps(h)[:700]), h)
+    if bad_spec:
+        # which operation is the first whose observation differs from the specification: that names the input class
+        sel = bad_spec[:40]
+        text = HEADER + key_defs() + """
+Fixpoint first_mismatch (a b : list event) (i : nat) : nat :=
+  match a, b with
+  | x :: r, y :: s => if event_eqb x y then first_mismatch r s (S i) else i
+  | _, _ => i
+  end.
+Definition firsts := Eval vm_compute in map (fun c : list op * list event => first_mismatch (fst (spec_transcript (fst c))) (snd c) 0) [
+""" + ";\n".join(cases[i] for i in sel) + "].\nPrint firsts.\n"
+        out, rc = ctx.coq_run("c03_first", text)
+        m = re.search(r"firsts\s*=\s*\[(.*?)\]", out, re.S)
+        firsts = [int(x) for x in re.findall(r"\d+", m.group(1))] if (rc == 0 and m) else [0] * len(sel)
+        for i, pos in zip(sel, firsts):
+            h = hist[i]
+            opk = h["ops"][pos]["op"] if pos < len(h["ops"]) else "length"
+            ctx.finding("history:%s" % opk,
+                        "operation #%d (%s) of history %d: the real implementation observed %s, the specification machine (insertion-ordered map, sorted listings, seedless hash) says otherwise; history: %s" % (
+                            pos, json.dumps(h["ops"][pos]) if pos < len(h["ops"]) else "-", h["i"], json.dumps(h["obs"][pos]) if pos < len(h["obs"]) else "-", json.dumps(h["ops"][:pos + 1])[:900]),
+                        {"mode": "history", "history": h, "first_mismatch": pos})
     only_model = [i for i in bad_model if i not in set(bad_spec)]
     if only_model:
         ctx.broken("correspondence:C03.Model", "model and implementation differ on %d histories where the specification is met, e.g. %s" % (len(only_model), json.dumps(hist[only_model[0]])[:600]))
 
     # ---- 3. generated programs: processes x repetitions x goroutines
-    n, k, g = (150, 3, 4) if quick else (3000, 8, 8)
+    n, k, g = (120, 3, 4) if quick else (5000, 8, 8)
     res = ctx.jsonl([hx, "run", "-seed", str(ctx.seed), "-n", str(n), "-k", str(k), "-g", str(g)], timeout=3000)
     summ = [d for d in res if d["kind"] == "summary"][0]
     for d in res:
